@@ -80,6 +80,83 @@ MUTANTS: dict[str, dict[str, list[tuple[str, str, str]]]] = {
                            'temp = path.with_name(f\'.{path.name}.tmp\')\n        if temp.is_dir():',
                            'temp = path\n        if False:')],
     },
+    'C04': {
+        'derived-depends-on-lifetimes-again': [('forml/flow/_graph/atomic.py',
+                                                ' or (self._group.trained and not self.trained)', '')],
+        'state-offset-reversed': [('forml/io/asset/_access.py', 'return self._nodes.index(gid)',
+                                   'return len(self._nodes) - 1 - self._nodes.index(gid)')],
+        'setstate-keeps-pickled-params': [('forml/flow/_code/target/user.py',
+                                           """        params = actor.get_params()
+        actor.set_state(value)
+        actor.set_params(**params)""", """        actor.set_state(value)""")],
+        'generation-get-ignores-explicit-key': [('forml/io/asset/_directory/level/major.py',
+                                                 'return genmod.Generation(self, key)',
+                                                 'return genmod.Generation(self, None)')],
+        'committer-offsets-in-visit-order': [('forml/flow/_code/compiler.py',
+                                              'self._linkage.insert(self._committer, dumper, self._assets.offset(state))',
+                                              'self._linkage.insert(self._committer, dumper, len(self._linkage[self._committer]))')],
+        'positional-state-from-sorted-listing': [('forml/io/asset/_directory/level/minor.py',
+                                                  'key = self.tag.states[key]', 'key = sorted(self.tag.states)[key]')],
+    },
+    'C17': {
+        'lowest-release-wins': [('forml/application/_strategy.py', 'for release in reversed(project.list()):',
+                                 'for release in project.list():')],
+        'empty-release-stops-the-search': [('forml/application/_strategy.py', """                except assetmod.Level.Listing.Empty:
+                    continue
+                break""", """                except assetmod.Level.Listing.Empty:
+                    break
+                break""")],
+        'refresh-never-updates': [('forml/application/_strategy.py', '                if changed:', '                if not changed:')],
+        'refresh-interval-scaled': [('forml/application/_strategy.py', 'time.sleep(self._interval)',
+                                     'time.sleep(self._interval * 10)')],
+        'refresher-never-started': [('forml/application/_strategy.py', """                if not self._refresher.is_alive():
+                    self._refresher.start()""", """                pass""")],
+        'refresher-dies-on-error': [('forml/application/_strategy.py', """                try:
+                    new = self._pick(registry)
+                    changed = new != old
+                except Exception as err:  # pylint: disable=broad-except
+                    # must not kill the refresher - keep serving the others (and retry this one next time)
+                    LOGGER.warning('Unable to refresh the latest instance from %s: %s', registry, err)
+                    continue""", """                new = self._pick(registry)
+                changed = new != old""")],
+        'eligible-uses-le': [('forml/application/_strategy.py', 'return (self.count / total) < self.target',
+                              'return (self.count / total) <= self.target')],
+        'slots-sorted-ascending': [('forml/application/_strategy.py', 'key=lambda s: s.target, reverse=True',
+                                    'key=lambda s: s.target, reverse=False')],
+        'explicit-rebuilds-latest-generation': [('forml/application/_strategy.py', """                generation=self._generation,
+            )
+        return self._instance""", """                generation=None,
+            )
+        return self._instance""")],
+    },
+    'C06': {
+        'cache-key-forgets-literals': [('forml/provider/feed/alchemy.py', "compile_kwargs={'literal_binds': True}",
+                                        "compile_kwargs={'literal_binds': False}")],
+        'cache-key-truncated': [('forml/provider/feed/alchemy.py', ').encode()).hexdigest()', ').encode()).hexdigest()[:1]')],
+        'memory-cache-shared-across-keys': [('forml/provider/feed/alchemy.py', """            self._frames[key] = frame
+        else:""", """            self._frames[key] = frame
+            self._frames[''] = frame
+        else:"""), ('forml/provider/feed/alchemy.py', "        return self._frames[key]", "        return self._frames.get('', self._frames[key])")],
+        'lazy-registers-once-per-process': [('forml/provider/feed/lazy.py',
+                                             'if origin not in self.PARTITIONS or self.PARTITIONS[origin].symmetric_difference(partitions):',
+                                             'if not self.PARTITIONS:')],
+    },
+    'C02': {
+        'dask-arguments-reversed': [('forml/provider/runner/dask.py', '(*(link(a) for a in args.get(leaf, [])))',
+                                     '(*(link(a) for a in reversed(args.get(leaf, []))))')],
+        'dask-impure-keys-collide': [('forml/provider/runner/dask.py', 'dask.delayed(leaf, pure=True, traverse=False)',
+                                      'dask.delayed(leaf, name=repr(leaf), traverse=False)')],
+        'pyfunc-replicas-off-by-one': [('forml/provider/runner/pyfunc.py', 'return [cls(queue, term, replicas) for _ in range(szout)]',
+                                        'return [cls(queue, term, replicas) for _ in range(szout - 1)] + [term]')],
+        'pyfunc-head-not-forked': [('forml/provider/runner/pyfunc.py',
+                                    'providers[dag[0].term] = collections.deque(fork(dag[0].term, dag[0].szout))  # the head can fan out too\n',
+                                    '')],
+        'pyfunc-leftovers-not-cleared': [('forml/provider/runner/pyfunc.py', """            for queue in self._queues:  # a failed call must not leak its replicas into the next one
+                queue.clear()""", """            pass""")],
+        'dumper-not-linked-to-committer': [('forml/flow/_code/compiler.py',
+                                            'self._linkage.insert(self._committer, dumper, self._assets.offset(state))',
+                                            'self._linkage.insert(self._committer, dumper, 0) if not self._linkage[self._committer] else None')],
+    },
     'C11': {
         'publish-rollback-removed': [('forml/flow/_graph/port.py',
                                       """            Subscription._PORTS[subscriber].discard(port)  # pylint: disable=protected-access
